@@ -48,6 +48,9 @@ pub enum Op {
     Mk1 { c: usize, h: usize },
     Store1 { c: usize, h: usize },
     DropH1 { h: usize },
+    /// marker: the operations after it run from a thread-local destructor, after the crate's own
+    /// thread-local storage is gone (each one borrows a node for itself)
+    Late,
 }
 
 impl Op {
@@ -89,6 +92,7 @@ impl Op {
             Mk1 { c, h } => format!("mk1 d{} k{}", c, h),
             Store1 { c, h } => format!("store1 d{} k{}", c, h),
             DropH1 { h } => format!("droph1 k{}", h),
+            Late => "late".to_string(),
         }
     }
 
@@ -132,6 +136,7 @@ impl Op {
             ["mk1", c, h] => Op::Mk1 { c: r(c)?, h: r(h)? },
             ["store1", c, h] => Op::Store1 { c: r(c)?, h: r(h)? },
             ["droph1", h] => Op::DropH1 { h: r(h)? },
+            ["late"] => Op::Late,
             _ => return None,
         })
     }
@@ -197,6 +202,10 @@ pub struct GenCfg {
     /// directed hand-over across containers: thread 0 alternates loads of c0 and c1, the others
     /// keep storing into one of them
     pub alternate: bool,
+    /// directed shutdown: thread 0 goes on loading (alternately from c0 and c1, keeping more than
+    /// eight guards) from a thread-local destructor after the crate's thread-local is gone, the
+    /// others keep storing
+    pub late: bool,
 }
 
 /// Type-directed generation: registers are tracked abstractly per thread so that most operations
@@ -227,6 +236,30 @@ pub fn generate(rng: &mut Rng, cfg: &GenCfg) -> Program {
         let mut ops = vec![];
         let hbase = 1 + t * HPT;
         let gbase = t * GPT;
+        if cfg.late {
+            if t == 0 {
+                ops.push(Op::LoadFull { c: 0, h: hbase });
+                ops.push(Op::DropH { h: hbase });
+                ops.push(Op::Late);
+                let keep = rng.range(0, 11);
+                for k in 0..keep.min(GPT - 2) {
+                    ops.push(Op::Load { c: k % 2, g: gbase + k });
+                }
+                for k in 0..rng.range(2, 6) {
+                    ops.push(Op::LoadFull { c: k % 2, h: hbase });
+                    ops.push(Op::DropH { h: hbase });
+                }
+            } else {
+                let c = (t + 1) % 2;
+                for _ in 0..rng.range(2, 5) {
+                    ops.push(Op::New { h: hbase + 1, val: next_val * 100 });
+                    next_val += 1;
+                    ops.push(Op::Store { c, h: hbase + 1 });
+                }
+            }
+            threads.push(ops);
+            continue;
+        }
         if cfg.alternate {
             if t == 0 {
                 for k in 0..rng.range(3, 7) {
